@@ -300,11 +300,17 @@ class CfgGen:
         for g, names in self.chord_groups:
             items = []
             # singles and some combinations
-            combos = [[n] for n in names]  # singles keep every name used
+            # most names have a single-key chord, some do not (such a key alone does nothing); every name is used somewhere
+            combos = [[n] for n in names if rng.random() < 0.75]
             for _ in range(rng.randint(1, 3)):
                 c = sorted(rng.sample(names, rng.randint(2, len(names))))
                 if c not in combos:
                     combos.append(c)
+            for n in names:
+                if not any(n in c for c in combos):
+                    c = sorted([n, rng.choice([m for m in names if m != n])])
+                    if c not in combos:
+                        combos.append(c)
             for c in combos:
                 saved = self.kinds
                 self.kinds = [k for k in saved if k not in ('trans', 'chord1')]
